@@ -54,8 +54,11 @@ def _obj_paths(k):
     it = A.Interp(fn)
     bs = [A.Sym(f"b{i}", "Int", 0, 255) for i in range(4)]
     answer = A.Obj(has_avp=lambda key: key == "result_code_avp",
-                   result_code_avp=A.Obj(data=A.Bytes4(bs)))
+                   result_code_avp=A.Obj(data=A.Bytes4(bs)),
+                   header=A.Obj(is_error=lambda: A.Sym("ebit", "Bool"), is_request=lambda: False,
+                                is_proxiable=lambda: A.Sym("pbit", "Bool")))
     decls = [f"(declare-const b{i} Int)" for i in range(4)] + [f"(assert (and (<= 0 b{i}) (<= b{i} 255)))" for i in range(4)]
+    decls += ["(declare-const ebit Bool)", "(declare-const pbit Bool)"]
     decls += ["(define-fun n () Int (+ (* b0 16777216) (* b1 65536) (* b2 256) b3))"]
     return it.run({"answer": answer}), it.encoded, decls
 
@@ -94,10 +97,11 @@ def _prove(kind, k):
     for c in _constants():
         real = bool(_call_real(kind, fn, c))
         for i, p in enumerate(paths):
+            fix = [f"(= n {c})"] + (["(not ebit)", "(not pbit)"] if kind == "obj" else [])
             if p.kind == "return":
-                vq.append(list(p.pc) + [f"(= n {c})", f"(not (= {_ret(p)} {'true' if real else 'false'}))"])
+                vq.append(list(p.pc) + fix + [f"(not (= {_ret(p)} {'true' if real else 'false'}))"])
             else:
-                vq.append(list(p.pc) + [f"(= n {c})"])
+                vq.append(list(p.pc) + fix)
     verdicts, stats, raw = A.decide(decls, queries + vq)
     main_v, val_v = verdicts[:len(queries)], verdicts[len(queries):]
     res = {"obligation": f"forall n{' in Int' if kind == 'int' else ' in [0,2^32)'}: n%1000!=0 -> "
@@ -111,12 +115,12 @@ def _prove(kind, k):
     res["discharged"] = sum(v == "unsat" for v in main_v)
     bad = [i for i, v in enumerate(main_v) if v == "sat"]
     if bad:
-        m = A.model(decls, queries[bad[0]], ["n"])
+        m = A.model(decls, queries[bad[0]], ["n"] + (["ebit", "pbit"] if kind == "obj" else []))
         n = m.get("n") if m else None
-        real = _call_real(kind, fn, n) if n is not None else None
+        real = _call_real(kind, fn, n, m.get("ebit", False), m.get("pbit", False)) if n is not None else None
         want = (n // 1000 == k) if n is not None else None
         res.update({"verdict": "cex", "detail": f"{labels[bad[0]]} fails for n={n}: {name} returns {real!r}",
-                    "call": f"{name}({n})", "reproduced": n is not None and bool(real) != want,
+                    "call": f"{name}({n}) flags={m}", "reproduced": n is not None and bool(real) != want,
                     "replay": {"verdict": "fails", "n": n, "observed": repr(real), "expected": want}})
         return res
     if all(v == "unsat" for v in main_v):
@@ -127,10 +131,11 @@ def _prove(kind, k):
     return res
 
 
-def _call_real(kind, fn, n):
+def _call_real(kind, fn, n, ebit=False, pbit=False):
     if kind == "int":
         return fn(n)
     m = DiameterMessage()
+    m.header.flags = (0x20 if ebit else 0) | (0x40 if pbit else 0)
     m.append(ResultCodeAVP(n.to_bytes(4, "big")))
     return fn(m)
 
@@ -157,10 +162,10 @@ def _excl(kind):
         res["verdict"] = "proved"
     elif any(v == "sat" for v in verdicts):
         i = verdicts.index("sat")
-        m = A.model(decls, queries[i], ["n"])
+        m = A.model(decls, queries[i], ["n"] + (["ebit", "pbit"] if kind == "obj" else []))
         n = m.get("n") if m else None
         fns = [getattr(U, (INT_PREDS if kind == "int" else OBJ_PREDS)[k]) for k in range(1, 6)]
-        holds = [bool(_call_real(kind, f, n)) for f in fns] if n is not None else []
+        holds = [bool(_call_real(kind, f, n, m.get("ebit", False), m.get("pbit", False))) for f in fns] if n is not None else []
         res.update({"verdict": "cex", "detail": f"two family predicates hold for n={n}: {holds}", "call": f"n={n}",
                     "reproduced": sum(holds) > 1, "replay": {"verdict": "fails", "n": n, "holds": holds}})
     else:
@@ -169,18 +174,25 @@ def _excl(kind):
     return res
 
 
-def e2_int_1(): return _prove("int", 1)
-def e2_int_2(): return _prove("int", 2)
-def e2_int_3(): return _prove("int", 3)
-def e2_int_4(): return _prove("int", 4)
-def e2_int_5(): return _prove("int", 5)
-def e2_obj_1(): return _prove("obj", 1)
-def e2_obj_2(): return _prove("obj", 2)
-def e2_obj_3(): return _prove("obj", 3)
-def e2_obj_4(): return _prove("obj", 4)
-def e2_obj_5(): return _prove("obj", 5)
-def e2_excl_int(): return _excl("int")
-def e2_excl_obj(): return _excl("obj")
+def _guard(f, *a):
+    try:
+        return f(*a)
+    except A.Unsupported as e:
+        return {"verdict": "inconclusive", "detail": f"E2 translator: unsupported construct ({e}); E1 queries still decide this clause"}
+
+
+def e2_int_1(): return _guard(_prove, "int", 1)
+def e2_int_2(): return _guard(_prove, "int", 2)
+def e2_int_3(): return _guard(_prove, "int", 3)
+def e2_int_4(): return _guard(_prove, "int", 4)
+def e2_int_5(): return _guard(_prove, "int", 5)
+def e2_obj_1(): return _guard(_prove, "obj", 1)
+def e2_obj_2(): return _guard(_prove, "obj", 2)
+def e2_obj_3(): return _guard(_prove, "obj", 3)
+def e2_obj_4(): return _guard(_prove, "obj", 4)
+def e2_obj_5(): return _guard(_prove, "obj", 5)
+def e2_excl_int(): return _guard(_excl, "int")
+def e2_excl_obj(): return _guard(_excl, "obj")
 
 
 # ------------------------------------------------------------------ E1: through the real objects
@@ -188,27 +200,29 @@ def _fam(n):
     return n // 1000 if n % 1000 != 0 else 0
 
 
-def obj_pred(n: int) -> bool:
+def obj_pred(n: int, flags: int) -> bool:
     """
-    pre: 0 <= n <= 4294967295
+    pre: 0 <= n <= 4294967295 and 0 <= flags <= 127
     pre: n % 1000 != 0
     post: _
     """
     k = P["k"]
     m = DiameterAnswer(command_code=316, application_id=16777251) if P.get("typed") else DiameterMessage()
+    m.header.flags = flags          # any answer header: E, P, T and reserved bits arbitrary
     m.append(ResultCodeAVP(n))
     r = getattr(U, OBJ_PREDS[k])(m)
     reached()
-    note(n=n, observed=repr(r), expected=(n // 1000 == k))
+    note(n=n, flags=flags, observed=repr(r), expected=(n // 1000 == k))
     return bool(r) == (n // 1000 == k)
 
 
-def obj_exclusive(n: int) -> bool:
+def obj_exclusive(n: int, flags: int) -> bool:
     """
-    pre: 0 <= n <= 4294967295
+    pre: 0 <= n <= 4294967295 and 0 <= flags <= 127
     post: _
     """
     m = DiameterMessage()
+    m.header.flags = flags
     m.append(ResultCodeAVP(n))
     hits = 0
     for k in range(1, 6):
